@@ -72,7 +72,13 @@ ASSUMPTIONS = ["schedules of the models cover every interleaving of synchronisat
                "TimeoutLimit: time.NewTimer(d) does not fire before d (hypothesis timers_ok); its concurrent behaviour is "
                "checked on histories only (linearizability w.r.t. Limit + timeout clause)",
                "RefResource.ref is modelled as an unbounded integer (int32 wrap-around ignored)",
-               "sync.Cond.Signal wakes the longest waiter (FIFO) in the Pool model"]
+               "sync.Cond.Signal wakes the longest waiter (FIFO) in the Pool model",
+               "ImmutableResource is in neither the statement's sentences nor its list of primitives; the `ir` stream checks only "
+               "what the code documents (hand out the resource if there is one, else try to fetch; refresh interval on failure). "
+               "Out-of-statement observation, kept out of the stream: with refresh interval 0 (or a fetch slower than the "
+               "interval) two overlapping fetches that BOTH succeed make the second replace the resource that Gets have "
+               "already handed out (case: interval 0; t0 Get gated fetch -> 11; clock +1; t1 Get gated fetch -> 12; release "
+               "t0; t2 Get -> 11; release t1; t2 Get -> 12)"]
 
 
 def _op(code, a=0, b=0, c=0):
@@ -152,7 +158,7 @@ def _gen_atomic(rng, prim, tier):
     g = rng.randint(2, 6)
     n = rng.randint(1, 3)
     if prim == "lim" and rng.random() < 0.25:
-        n = 0          # NewLimit(0): nothing can ever be borrowed (blocking Borrow is kept out: see LIMIT0 note)
+        n = 0          # NewLimit(0): nothing can ever be borrowed; a blocking Borrow parks for ever (D19)
     scripts = [[] for _ in range(g)]
     sched = []
     out, blocked, locked = 0, None, False
@@ -166,7 +172,7 @@ def _gen_atomic(rng, prim, tier):
             continue
         if prim == "lim":
             code = rng.choice([0, 0, 1, 1, 2, 2, 2])
-            if code == 0 and out >= n and (blocked is not None or n == 0):
+            if code == 0 and out >= n and (blocked is not None or (n == 0 and rng.random() < 0.6)):
                 code = 1
             scripts[t].append(_op(code))
             if code == 0:
@@ -473,7 +479,7 @@ def _gen_mr(rng):
 def _gen_ir(rng):
     """ImmutableResource: fetches that fail (with nil, with a non-nil value, with a typed nil pointer),
     retry per refresh interval, overlapping fetches with interval 0 (at most one of them succeeds:
-    two overlapping SUCCESSFUL fetches replace the shared resource on HEAD -- see IR_REPLACE note)."""
+    two overlapping SUCCESSFUL fetches replace the shared resource on HEAD -- see ASSUMPTIONS)."""
     kind = rng.randrange(3)
     bad = lambda: rng.choice([0, 901, 902, 999])
     if kind == 0:
@@ -594,6 +600,10 @@ def _directed():
     out.append({"prim": "ir", "n": 0, "m": 0,
                 "scripts": [[_op(0, 11, 1, 0)], [_op(0, 902, 2, 1), _op(0, 15, 0, 0)], [_op(0, 13, 0, 0)]],
                 "sched": [_t(0), {"k": "a", "v": 1}, _t(1), g1, {"k": "o", "v": 2}, {"k": "a", "v": 1}, _t(2), _t(1)]})
+    # D19: a blocking Borrow on a limit of 0 and a Return by somebody who never borrowed: the Return is an error
+    # and the Borrow stays blocked (before the fix they paired up: 1 outstanding borrow on a limit of 0)
+    out.append({"prim": "lim", "n": 0, "m": 0, "scripts": [[_op(0), _op(2)], [_op(2), _op(1), _op(2)]],
+                "sched": [_t(0), _t(1), _t(1), _t(1), _t(0)]})
     # boundary size 0: nothing can be borrowed, Return is an error, a timed Borrow times out
     out.append({"prim": "lim", "n": 0, "m": 0, "scripts": [[_op(1), _op(2), _op(1)], [_op(2), _op(1)]],
                 "sched": [_t(0), _t(1), _t(0), _t(1), _t(0)]})
